@@ -89,7 +89,8 @@ def run(rep, repo, tier):
     rep.unit("%s::%s.__call__" % (mod.relpath, c))
   npoints = 0
   rejected = 0
-  for cls, kw, want, txt, bits in oracle.lattice_fixed_point(tier):
+  for cls, kw, want, txt, bits in oracle.lattice_fixed_point(
+      tier, relu_bound=True):
     cfg = "%s(%s)" % (cls, oracle.show_kwargs(kw))
     unit = "%s::%s.__call__" % (mod.relpath, cls)
     try:
@@ -166,8 +167,14 @@ def run(rep, repo, tier):
                 facts={"config": cfg, "min": str(mn), "max": str(mx),
                        "out_lo": str(lo), "out_hi": str(hi)})
     # R4 range() enumerates exactly the reachable set
+    # (a relu_upper_bound that really clips is outside the property's
+    # lattice: range() is not asked to follow it)
+    clipping_bound = kw.get("relu_upper_bound") is not None and \
+        not kw.get("is_quantized_clip", True) and \
+        kw["relu_upper_bound"] < want.bounds()[1]
     if kw.get("alpha", None) is None and mod.classes[cls].find_method(
-        "range")[1] is not None and got.kind == "fin":
+        "range")[1] is not None and got.kind == "fin" and \
+        not clipping_bound:
       runit = "%s::%s.range" % (mod.relpath, cls)
       try:
         pe_r, obj_r = quant.construct(repo, cls, kw)
